@@ -235,9 +235,12 @@ func (s *Service) Open() error {
 }
 
 func (s *Service) Close() error {
+	// Closing the topics drains every handler queue. Publish and aggregate handlers
+	// collect events on this service while they drain, which needs s.mu,
+	// so the lock must not be held while waiting for them.
+	s.topics.Close()
 	s.mu.Lock()
 	defer s.mu.Unlock()
-	s.topics.Close()
 	return s.APIServer.Close()
 }
 
@@ -595,21 +598,24 @@ func (s *Service) RestoreTopic(topic string) error {
 }
 
 func (s *Service) CloseTopic(topic string) error {
+	// Delete running topic.
+	// Deleting drains the topic's handler queues, see Close for why the lock is not held.
+	s.topics.DeleteTopic(topic)
+
 	s.mu.Lock()
 	defer s.mu.Unlock()
-
-	// Delete running topic
-	s.topics.DeleteTopic(topic)
 	s.closedTopics[topic] = true
 
 	return nil
 }
 
 func (s *Service) DeleteTopic(topic string) error {
+	// Deleting drains the topic's handler queues, see Close for why the lock is not held.
+	s.topics.DeleteTopic(topic)
+
 	s.mu.Lock()
 	defer s.mu.Unlock()
 	delete(s.closedTopics, topic)
-	s.topics.DeleteTopic(topic)
 	return s.topicsStore.Update(func(tx storage.Tx) error {
 		return tx.Delete(topic)
 	})
@@ -679,22 +685,24 @@ type closer interface {
 
 func (s *Service) DeregisterHandlerSpec(topic, handler string) error {
 	s.mu.Lock()
-	defer s.mu.Unlock()
-
 	h, ok := s.handlers[topic][handler]
-
 	if ok {
 		// Delete handler spec
 		if err := s.specsDAO.Delete(topic, handler); err != nil {
+			s.mu.Unlock()
 			return err
 		}
+		delete(s.handlers[h.Spec.Topic], handler)
+	}
+	s.mu.Unlock()
+
+	if ok {
+		// Deregistering drains the handler's queue, see Close for why the lock is not held.
 		s.topics.DeregisterHandler(topic, h.Handler)
 
 		if ha, ok := h.Handler.(closer); ok {
 			ha.Close()
 		}
-
-		delete(s.handlers[h.Spec.Topic], handler)
 	}
 	return nil
 }
@@ -713,27 +721,26 @@ func (s *Service) UpdateHandlerSpec(oldSpec, newSpec HandlerSpec) error {
 	}
 
 	s.mu.Lock()
-	defer s.mu.Unlock()
-
 	oldH := s.handlers[topic][oldSpec.ID]
 
 	// Persist new handler specs
 	if newSpec.ID == oldSpec.ID {
-		if err := s.specsDAO.Replace(newSpec); err != nil {
-			return err
-		}
+		err = s.specsDAO.Replace(newSpec)
 	} else {
-		if err := s.specsDAO.Create(newSpec); err != nil {
-			return err
+		if err = s.specsDAO.Create(newSpec); err == nil {
+			err = s.specsDAO.Delete(oldSpec.Topic, oldSpec.ID)
 		}
-		if err := s.specsDAO.Delete(oldSpec.Topic, oldSpec.ID); err != nil {
-			return err
-		}
+	}
+	if err != nil {
+		s.mu.Unlock()
+		return err
 	}
 
 	delete(s.handlers[topic], oldSpec.ID)
 	s.setTopicHandler(newSpec.Topic, newSpec.ID, newH)
+	s.mu.Unlock()
 
+	// Replacing drains the old handler's queue, see Close for why the lock is not held.
 	s.topics.ReplaceHandler(topic, oldH.Handler, newH.Handler)
 	return nil
 }
